@@ -127,6 +127,18 @@ func c17units(tier string) []mc.Unit {
 			r.Bound("sequence", fmt.Sprintf("every order 1..%d", maxOrder))
 		}})
 	}
+	us = append(us, historyUnit("api-histories", []hcall{
+		{"NucleobaseDeBruijnSequence(3)", func() any { return primers.NucleobaseDeBruijnSequence(3) }, showSprint},
+		{"CreateBarcodes(6,3)", func() any { return primers.CreateBarcodes(6, 3) }, showSprint},
+		{"CreateBarcodes(5,2)", func() any { return primers.CreateBarcodes(5, 2) }, showSprint},
+		{"CreateBarcodesWithBannedSequences(6,3,[TT])", func() any { return primers.CreateBarcodesWithBannedSequences(6, 3, []string{"TT"}, nil) }, showSprint},
+		{"CreateBarcodesWithBannedSequences(6,3,[GA,CTT],noAA)", func() any {
+			return primers.CreateBarcodesWithBannedSequences(6, 3, []string{"GA", "CTT"}, []func(string) bool{c17filters[0].f})
+		}, showSprint},
+		{"CreateBarcodesWithBannedSequences(20,4,[],avoid:TG,avoid:CC)", func() any {
+			return primers.CreateBarcodesWithBannedSequences(20, 4, nil, []func(string) bool{c17avoid("TG").f, c17avoid("CC").f})
+		}, showSprint},
+	}, 3))
 	// barcodes with bans and filters
 	var pool []string
 	for _, l := range []int{2, 3} {
